@@ -132,6 +132,12 @@ func PanicSignature(r interface{}, stack []byte) string {
 	}
 	fn = strings.TrimPrefix(fn, "github.com/dave/dst")
 	fn = argList.ReplaceAllString(fn, "")
+	// an argument list cut short by the location pattern ("imports(0xc000123, 0x0)" -> "imports(0xc000123")
+	for _, open := range []string{"(0x", "({", "(...", "(0,", "(?"} {
+		if i := strings.Index(fn, open); i >= 0 {
+			fn = fn[:i]
+		}
+	}
 	return "panic:" + msg + " @ " + fn
 }
 
